@@ -265,6 +265,49 @@ def gen_shadow_program(rng, fault=False):
     return prog
 
 
+def gen_nonstruct_access_program(rng):
+    """directed family: an attribute access whose root variable is declared with a primitive or an array type
+    (the language has no syntax to look into those): must be reported, wherever the access is used"""
+    vty = rng.choice(["number[]", "number", "string", "S[]", "boolean[2]"])
+    attr = rng.choice(["a", "foo", "k"])
+    path = ["v", attr] if rng.random() < 0.7 else ["v", attr, "k"]
+    structs = [{"name": "S", "attrs": [["a", "number"], ["k", "number"]]}]
+    use = rng.choice(["svc_in", "cond", "limit", "call_in", "wloop", "cond_bool"])
+    callee = {"name": "other", "ins": [["x", "number"]], "outs": [], "body": [{"k": "svc", "name": "Use", "ins": ["x"], "outs": []}]}
+    if use == "svc_in":
+        stmt = {"k": "svc", "name": "Work", "ins": [path], "outs": []}
+    elif use == "cond":
+        stmt = {"k": "cond", "e": {"binOp": rng.choice([">", "==", "+"]), "left": path, "right": 1} if rng.random() < 0.8 else
+                {"binOp": ">", "left": {"left": "(", "binOp": {"binOp": "+", "left": path, "right": 1}, "right": ")"}, "right": 2},
+                "passed": [{"k": "svc", "name": "Work", "ins": [], "outs": []}], "failed": None}
+    elif use == "cond_bool":
+        stmt = {"k": "cond", "e": path if rng.random() < 0.5 else {"unOp": "!", "value": path},
+                "passed": [{"k": "svc", "name": "Work", "ins": [], "outs": []}], "failed": None}
+    elif use == "wloop":
+        stmt = {"k": "wloop", "e": {"binOp": "And", "left": path, "right": True}, "body": [{"k": "svc", "name": "Work", "ins": [], "outs": []}]}
+    elif use == "limit":
+        stmt = {"k": "cloop", "var": "i", "limit": path, "body": [{"k": "svc", "name": "Work", "ins": [], "outs": []}]}
+    else:
+        stmt = {"k": "call", "name": "other", "ins": [path], "outs": []}
+    if rng.random() < 0.5:
+        main = {"name": "productionTask", "ins": [], "outs": [], "body": [{"k": "svc", "name": "Get", "ins": [], "outs": [["v", vty]]}, stmt]}
+        tasks = [main, callee]
+    else:
+        main = {"name": "productionTask", "ins": [], "outs": [], "body": [{"k": "svc", "name": "Get", "ins": [], "outs": [["w", vty]]},
+                                                                         {"k": "call", "name": "sub", "ins": ["w"], "outs": []}]}
+        sub = {"name": "sub", "ins": [["v", vty]], "outs": [], "body": [stmt]}
+        tasks = [main, sub, callee]
+    return {"structs": structs, "tasks": tasks}
+
+
+def job_nonstruct(args):
+    seed, = args
+    rng = random.Random(seed)
+    prog = gen_nonstruct_access_program(rng)
+    text = vgen.print_program(prog, None)
+    return {"seed": seed, "fault": True, "prog": prog, "text": text, "res": run_validator(text)}
+
+
 def job_shadow(args):
     seed, fault = args
     rng = random.Random(seed)
@@ -946,6 +989,18 @@ def _run(ctx, pool, res):
     # directed family: same variable name / path text with different types in different tasks ------------
     shadow = pool.map(job_shadow, [(seed * 31 + i, prop in ("C10", "C19") and i % 2 == 1) for i in range(24 if quick else 240)]) \
         if prop in ("C10", "C11", "C16") else []
+    nonstruct = pool.map(job_nonstruct, [(seed * 37 + i,) for i in range(40 if quick else 400)]) if prop in ("C10", "C16", "C19") else []
+    for r in nonstruct:
+        n_eval += 1
+        rv = r["res"]
+        distinct.add(hashlib.sha256(r["text"].encode()).hexdigest())
+        if rv["exc"]:
+            add_violation(res, seen, "C16", "raises", "validation raised %s on an attribute access whose root variable is no struct" % rv["exc"], r["text"])
+            add_violation(res, seen, "C10", "fault_raises_nonstruct_access", "attribute access on a variable of primitive / array type: validation raised %s instead of reporting" % rv["exc"], r["text"])
+        elif rv["valid"] is not False or not rv["errs"]:
+            add_violation(res, seen, "C10", "fault_accepted_nonstruct_access", "attribute access on a variable of primitive / array type is not reported", r["text"])
+        else:
+            model_reqs.append(("nonstruct", r["prog"], rv, r["text"]))
     for r in shadow:
         n_eval += 1
         rv = r["res"]
